@@ -2,6 +2,8 @@
 """regenerates MANIFEST.json from the table below (kept valid at all times)"""
 import json
 CLAIMED = {
+ "C15": ("typed arrays: float-to-int element conversions range-limited before the cast (no saturation before the modular step); unsafe element access on subslice()d, validated slices; raw copies only from audited callers with reference-derived pointers",
+         "value-shape classification of every Cast(FloatToInt) by reaching definitions and dominating comparisons + provenance rules on unsafe call sites", "§5 C15"),
  "C16": ("jobs: only FIFO-preserving operations on job queues, job types consumed by value and not Clone, budget/non-budget opcode handlers identical up to the budget subtraction, kept objects cleared per batch",
          "who-may-call on queue fields discovered by type + ADT/impl facts + sibling comparison of the 2x256 generated handlers", "§5 C16"),
  "C17": ("modules: status transition relation extracted from every transition closure is a subset of the specification's and Evaluated is terminal; the module body is executed only behind status guards",
